@@ -82,7 +82,7 @@ def _case(draw, tier):
                 "op": "offer",
                 "t": draw(st.integers(0, 2)),
                 "cands": cands,
-                "via": draw(st.sampled_from(["update", "update", "setitem"])),
+                "via": draw(st.sampled_from(["update", "update", "setitem", "held"])),
             })
         elif what == "read":
             ops.append({"op": "read", "order": draw(st.integers(0, 9))})
@@ -210,6 +210,9 @@ def execute(case, focus=None):
         models = {}
         offers = [models.setdefault(k, []) for k in keys]
         getters = [lambda k=k: cell(k) for k in keys]
+        # handles obtained before the first write and kept by the caller for the whole
+        # history: they must keep showing the cell, whoever writes it and through which handle
+        held = [cell(k) for k in keys]
     else:
         helper = dp.Table((dp.DictDimension(),), merge, ret)
         entries, offers = [], []
@@ -230,11 +233,19 @@ def execute(case, focus=None):
                 run.probe("prefilled_entry")
         ntargets = len(entries)
         getters = [lambda e=e: e for e in entries]
+        held = []
 
     def check_all(where):
         obs = []
         for i in range(ntargets):
             obs.append(_check_target(run, case, f"target{i}", getters[i](), offers[i], where))
+        for i, handle in enumerate(held):
+            seen = _check_target(run, case, f"target{i} through the handle obtained before the "
+                                 f"history", handle, offers[i], where)
+            run.check(ret != dp.RetentionPolicy.ALL or seen == obs[i], ("C16",),
+                      "C16.handles-disagree",
+                      lambda: f"{where}: target{i} reads {obs[i]} through a fresh handle and "
+                              f"{seen} through the one obtained earlier")
         return obs
 
     for idx, op in enumerate(case["ops"]):
@@ -250,6 +261,9 @@ def execute(case, focus=None):
                     node = node[k]
                 for cand in cands:
                     node[key[-1]] = cand
+            elif op["via"] == "held" and held:
+                held[t].update(*cands)
+                run.probe("write_through_held_handle")
             else:
                 getters[t]().update(*cands)
             offers[t].extend((v, tag) for v, tag in op["cands"])
@@ -341,7 +355,8 @@ def describe(pid):
                 "a drawn pair-weight table, on 1-3 standalone entries or 1-3 cells of one 1-3 "
                 "dimensional List/Dict table (standalone entries created from the policies, by "
                 "table.entry(), or pre-filled with a value and tags), for the 2x3 policy combinations; after every "
-                "operation every target is compared with the list-of-offers model. A run is "
+                "operation every target is compared with the list-of-offers model, through a freshly "
+                "indexed handle and through a handle obtained before the first write. A run is "
                 "non-trivial if it contains a multi-candidate batch, a permuted iteration or a "
                 "combine over more than one pair; distinct = distinct case digest.",
         "real": ["superrec2.utils.dynamic_programming (Entry, EntryProxy, Table, TableProxy, "
@@ -353,5 +368,5 @@ def describe(pid):
             "seeded sampling, not exhaustive enumeration",
         ],
         "probes_expected": ["order_permuted", "untagged_offer", "unwritten_read", "combine_pairs>1",
-                            "prefilled_entry"],
+                            "prefilled_entry", "write_through_held_handle"],
     }
